@@ -134,7 +134,7 @@ theorem calc_failure_consistent (g : Graph V) (hwf : g.WF) (x0 : Nat → V) (s0 
   have hI := inv_reachable g hwf x0 s0 h0 hist hv
   obtain ⟨hI', _⟩ := change_spec g hwf _ c hI hc
   obtain ⟨h1, h2, h3⟩ := afterUndo_spec g _ c hI hc
-  obtain ⟨_, _, hf⟩ := applyChanges_spec g hwf _ _ h3 h1 h2
+  obtain ⟨_, _, hf, _⟩ := applyChanges_spec g hwf _ _ h3 h1 h2
   refine ⟨coh_evalFresh g hwf _ _ hI'.cur, (hf hr).1, ?_⟩
   show (applyChanges g _ _).1.lastUndo = []
   have hr' : (applyChanges g (afterUndo (runHist g s0 hist) c).1 (afterUndo (runHist g s0 hist) c).2).2 = none := hr
